@@ -2,3 +2,7 @@ import Bpp.Basic
 import Bpp.Wip
 import Bpp.Range
 import Bpp.Complete
+import Bpp.SVector
+import Bpp.ClosedForms
+import Bpp.VerifierEqSpec
+import Bpp.Verdict
